@@ -26,6 +26,17 @@ Axis(labs, absent) == {<<"keep">>} \cup {<<"to", t>> : t \in Targets(labs, absen
 Others == {<<>>, <<I(1)>>, <<I(2), <<"f", 3, 1>>>>, <<B(TRUE)>>, <<NaN>>, <<None, <<"s", "q">>>>}
 Bounds == {None, I(0), I(2), <<"f", 3, 2>>}
 
+(* hierarchical subjects: depth 2 and depth 3, deliberately NOT in sorted order (b before a, 2 before 1) *)
+T2(a, b) == <<"t", <<a, b>>>>
+T3(a, b, c) == <<"t", <<a, b, c>>>>
+HLab2 == <<T2(S("b"), I(2)), T2(S("b"), I(1)), T2(S("a"), I(2)), T2(S("a"), I(3))>>
+HLab3 == <<T3(S("b"), I(2), S("y")), T3(S("b"), I(2), S("x")), T3(S("b"), I(1), S("y")), T3(S("a"), I(2), S("x")), T3(S("a"), I(1), S("y"))>>
+HSer2 == [index |-> HLab2, vals |-> [i \in 1..4 |-> I(10 * i)], dt |-> DtI64, name |-> None]
+HSer3 == [index |-> HLab3, vals |-> [i \in 1..5 |-> I(10 * i)], dt |-> DtI64, name |-> <<"s", "h">>]
+HF == [index |-> HLab3, columns |-> <<T2(S("q"), I(2)), T2(S("q"), I(1)), T2(S("p"), I(2))>>, name |-> None,
+       cols |-> <<[dt |-> DtI64, vals |-> [i \in 1..5 |-> I(i)]], [dt |-> DtF64, vals |-> [i \in 1..5 |-> <<"f", 2 * i + 1, 2>>]], [dt |-> DtI64, vals |-> [i \in 1..5 |-> I(100 + i)]]>>]
+DepthMaps(d) == {m \in [1..d -> 0..(d - 1)] : TRUE} \cup {<<0>>}      \* every map, valid or not, and one of the wrong length
+
 InitCases ==
   \/ \E t \in Targets(RowLab, Absent), v \in Fills : cs = [op |-> "s_reindex", s |-> Ser, target |-> t, v |-> v]
   \/ \E it \in Axis(RowLab, Absent), ct \in Axis(ColLab, AbsentC), v \in Fills : cs = [op |-> "f_reindex", f |-> F, it |-> it, ct |-> ct, v |-> v]
@@ -42,6 +53,16 @@ InitCases ==
   \/ cs = [op |-> "f_transpose", f |-> F]
   \/ \E lo \in Bounds, hi \in Bounds, s \in {Ser, SerF} : cs = [op |-> "s_clip", s |-> s, lo |-> lo, hi |-> hi]
   \/ \E lo \in Bounds, hi \in Bounds : cs = [op |-> "f_clip", f |-> [F EXCEPT !.columns = SubSeq(ColLab, 1, MinI(NC, 3)), !.cols = SubSeq(F.cols, 1, MinI(NC, 3))], lo |-> lo, hi |-> hi]
+
+  \/ \E h \in {HSer2, HSer3}, x \in {<<"s", "X">>, <<"i", 0>>} : cs = [op |-> "s_level_add", s |-> h, v |-> x]
+  \/ \E h \in {HSer2, HSer3}, n \in 1..2 : (n < HDepth(h.index)) /\ cs = [op |-> "s_level_drop", s |-> h, n |-> n]
+  \/ \E dm \in DepthMaps(2) : cs = [op |-> "s_rehierarch", s |-> HSer2, dm |-> dm]
+  \/ \E dm \in DepthMaps(3) : cs = [op |-> "s_rehierarch", s |-> HSer3, dm |-> dm]
+  \/ \E ax \in {0, 1}, x \in {<<"s", "X">>} : cs = [op |-> "f_level_add", f |-> HF, axis |-> ax, v |-> x]
+  \/ \E n \in 1..2 : cs = [op |-> "f_level_drop", f |-> HF, axis |-> 0, n |-> n]
+  \/ cs = [op |-> "f_level_drop", f |-> HF, axis |-> 1, n |-> 1]
+  \/ \E dm \in DepthMaps(3) : cs = [op |-> "f_rehierarch", f |-> HF, axis |-> 0, dm |-> dm]
+  \/ \E dm \in DepthMaps(2) : cs = [op |-> "f_rehierarch", f |-> HF, axis |-> 1, dm |-> dm]
 
 Pending == [k |-> "pending"]
 Init == InitCases /\ res = Pending
@@ -98,6 +119,18 @@ ClipWithinBounds ==
            /\ (Tag(cs.hi) # "none" => QLe(QOf(res.vals[i]), QOf(cs.hi)))
            /\ ((Tag(cs.lo) # "none" /\ (Tag(cs.hi) = "none" \/ QLe(QOf(cs.lo), QOf(cs.hi)))) => QLe(QOf(cs.lo), QOf(res.vals[i])))
            /\ ((Tag(cs.lo) = "none" \/ QLe(QOf(cs.lo), QOf(cs.s.vals[i]))) /\ (Tag(cs.hi) = "none" \/ QLe(QOf(cs.s.vals[i]), QOf(cs.hi))) => QOf(res.vals[i]) = QOf(cs.s.vals[i]))
+(* rehierarch: a bijection on rows (every source label, reordered by the depth map, appears once with its own cells) *)
+(* and the result is a tree: rows that agree on a prefix of levels are contiguous                                     *)
+Contiguous(labs, k) == \A i, j \in 1..Len(labs) : (i < j /\ SubSeq(labs[i][2], 1, k) = SubSeq(labs[j][2], 1, k)) =>
+                          \A m \in i..j : SubSeq(labs[m][2], 1, k) = SubSeq(labs[i][2], 1, k)
+RehierarchExact ==
+  (Done /\ cs.op = "s_rehierarch" /\ res.k = "series") =>
+     /\ Len(res.index) = Len(cs.s.index)
+     /\ \A i \in 1..Len(cs.s.index) : \E k \in 1..Len(res.index) : res.index[k] = PermuteLabel(cs.s.index[i], cs.dm) /\ res.vals[k] = cs.s.vals[i]
+     /\ \A k \in 1..HDepth(res.index) : Contiguous(res.index, k)
+LevelAddDropRoundTrip ==
+  (Done /\ cs.op = "s_level_add" /\ res.k = "series") =>
+     SeriesLevelDrop([index |-> res.index, vals |-> res.vals, dt |-> res.dt, name |-> res.name], 1) = AsSeries(cs.s)
 (* negative control: a roll that also reorders within the columns would not be invertible (never holds) *)
 NegRollIsIdentity == (Done /\ cs.op = "f_roll" /\ res.k = "frame") => res.cols = cs.f.cols
 =============================================================================
